@@ -32,6 +32,12 @@ Trajs == UNION {[1..n -> RowFlags] : n \in 0..MaxLen}
 Zeros(t) == SelectSeq([i \in 1..Len(t) |-> i], LAMBDA i : (t[i] \cap {"U", "D"}) # {})
 FirstWith(t, f) == IF \E i \in 1..Len(t) : f \in t[i] THEN (CHOOSE i \in 1..Len(t) : f \in t[i] /\ \A j \in 1..(i - 1) : f \notin t[j]) - 1 ELSE -1
 
+\* a speed column that is NOT monotone (derived from the flag word so that every trajectory carries one): the helper that
+\* looks for the first row slower than a threshold must scan in order, strictly
+Vel(t) == [i \in 1..Len(t) |-> Value(t[i]) % 5]
+FirstBelow(t, q) == IF \E i \in 1..Len(t) : Vel(t)[i] < q
+                    THEN (CHOOSE i \in 1..Len(t) : Vel(t)[i] < q /\ \A j \in 1..(i - 1) : ~(Vel(t)[j] < q)) - 1 ELSE -1
+
 VARIABLES traj, extra
 vars == <<traj, extra>>
 Init == traj \in Trajs /\ extra \in BOOLEAN
@@ -39,5 +45,6 @@ Next == UNCHANGED vars
 Spec == Init /\ [][Next]_vars
 R_ZerosInOrder == \A i \in 1..(Len(Zeros(traj)) - 1) : Zeros(traj)[i] < Zeros(traj)[i + 1]
 R_NameInjective == \A S, T \in SUBSET AllFlags : Name(S) = Name(T) => S = T
+R_FirstBelowIsFirst == \A q \in 0..5 : LET k == FirstBelow(traj, q) IN k >= 0 => (Vel(traj)[k + 1] < q /\ \A j \in 1..k : Vel(traj)[j] >= q)
 R_ValueRange == \A S \in SUBSET AllFlags : Value(S) \in 0..31
 =============================================================================
